@@ -24,7 +24,7 @@ def nkey(s):
     return re.sub(r"[^a-z0-9]", "", s.lower())
 
 
-def compare_seq(code, spec_segs, ctxname):
+def compare_seq(code, spec_segs, ctxname, side_read_ok=False):
     """first structural difference between normalised code segments and spec segments, or None"""
     # merge adjacent spec pads as well
     sp = []
@@ -35,6 +35,8 @@ def compare_seq(code, spec_segs, ctxname):
             sp.append(x)
     off = 2
     for i in range(max(len(code), len(sp))):
+        if i >= len(code) and sp[i][2] == "align" and side_read_ok:
+            continue  # the reader does not consume the trailing alignment pad
         if i >= len(code):
             return "offset %s: code ends, spec continues with %s" % (off, show(sp[i:i + 2]))
         if i >= len(sp):
@@ -42,6 +44,10 @@ def compare_seq(code, spec_segs, ctxname):
         c, s = code[i], sp[i]
         if c[2] == "?":
             return "offset %s: code segment %s undecidable (%s)" % (off, c[0], c[3].get("why"))
+        if s[2] == "align" or c[2] == "align":
+            if (c[2], c[3].get("align")) != (s[2], s[3].get("align")):
+                return "offset %s: alignment pad: code %s vs spec %s" % (off, show([c]), show([s]))
+            continue
         if s[2] == "count":
             if c[2] != "count":
                 return "offset %s: spec has counted vector %s, code has %s" % (off, s[0], show([c]))
@@ -130,7 +136,7 @@ def run(ctx, rep):
         loc = ctx.loc(lay["ent"]) if lay.get("ent") else v["loc"]
         for side in ("read", "write"):
             code = norm(lay[side], side, wire)
-            diff = compare_seq(code, sseg, key)
+            diff = compare_seq(code, sseg, key, side == "read")
             rep.check("R2.2", "%s:%s" % (key, side), diff is None,
                       "IS_%s %s-side layout differs from spec: %s | code: %s | spec: %s" % (sname, side, diff, show(code), show(sseg)),
                       loc, sample={"packet": sname, "side": side, "code": show(code), "spec": show(sseg)})
@@ -142,6 +148,8 @@ def run(ctx, rep):
             # ---- R2.3 known names must sit at the spec's position
             cn = [basename(x[0]) for x in code if x[2] not in ("Z",)]
             sn = [nkey(x[0].split(".")[0].split("[")[0]) for x in sseg if x[2] != "Z"]
+            if side == "read":
+                sn = [nkey(x[0].split(".")[0].split("[")[0]) for x in sseg if x[2] not in ("Z", "align")]
             if diff is None and len(cn) == len(sn):
                 # collapse repeated base names (nested structs)
                 for i, (a, b) in enumerate(zip(cn, sn)):
